@@ -25,7 +25,22 @@ class C07(Check):
         "admissible signatures: DER length <= 72 (<= 71, i.e. low-S as btcec signs, for P2PKH inputs of a transaction that also has witness inputs), Schnorr <= 65",
     ]
     EXTRA_TRUSTED = ["btcd blockchain.WitnessScaleFactor = 4 and btcutil.MaxSatoshi are model constants (not regenerated: outside the repository)",
-                     "lib/extract_c07.py (regex reading of size.go / rules.go / author.go)"]
+                     "lib/extract_c07.py: regex reading of size.go / rules.go / author.go; when the shape is not recognised, facts "
+                     "fitted to probes of the built code (harness/cmd/extract-c07) and validated on a fixed grid - the split of a "
+                     "witness input's weight into base size and witness weight is then taken from the exported constants "
+                     "(only the weight is observable); evidence field facts_source says which path ran"]
+
+    def extra_coverage(self, cases):
+        # which path of lib/extract_c07.py produced the regenerated facts of this run
+        src, detail = "unknown", ""
+        try:
+            txt = open(os.path.join(COQ, "Generated", "TxsizesConsts.v")).read()
+            m = re.search(r"\(\* facts source: (\w+)(.*?)\*\)", txt, re.S)
+            if m:
+                src, detail = m.group(1), re.sub(r"\s+", " ", m.group(2)).strip()
+        except OSError:
+            pass
+        return dict(facts_source=src, facts_source_detail=detail)
 
     def nontrivial(self, c):
         i = c["in"]
